@@ -21,7 +21,8 @@ import (
 func init() {
 	register(&family{name: "key", gen: genKeyOps, exec: execKey})
 	register(&family{name: "impl", gen: genImplOps, exec: execImpl})
-	propFamilies["C16"] = []string{"impl", "key"}
+	subGens["impl:C16"] = func(r *rand.Rand, n int) []string { return genImplOpsX(r, n, true) }
+	propFamilies["C16"] = []string{"impl:C16", "key"}
 	propFamilies["C17"] = []string{"key", "impl"}
 }
 
@@ -135,6 +136,20 @@ func execImpl(op string, a []string) string {
 			}
 		}
 		return fmt.Sprintf("new:ok create:%s verify:%s", c, v)
+	case "impl.malformed":
+		// spec op (C16): a key whose key_ops cannot be interpreted as a list of integers must not be usable for anything
+		k := keyFromToks(a)
+		if m, err := k.MACer(); err == nil {
+			if _, err := m.MACCreate([]byte{1}); err == nil {
+				return "usable mac-create"
+			}
+		}
+		if e, err := k.Encryptor(); err == nil {
+			if _, err := e.Encrypt(make([]byte, e.NonceSize()), []byte{1}, nil); err == nil {
+				return "usable encrypt"
+			}
+		}
+		return "unusable"
 	case "impl.aead":
 		// impl.aead <iv> <pt> <aad> <key…> | <opsAfter…>
 		iv, pt, aad := unhx(a[0]), unhx(a[1]), unhx(a[2])
@@ -318,7 +333,9 @@ func genKeyOps(r *rand.Rand, n int) []string {
 	return out
 }
 
-func genImplOps(r *rand.Rand, n int) []string {
+func genImplOps(r *rand.Rand, n int) []string { return genImplOpsX(r, n, false) }
+
+func genImplOpsX(r *rand.Rand, n int, withMalformed bool) []string {
 	var out []string
 	for i := 0; i < n; i++ {
 		alg := symAlgs[r.Intn(len(symAlgs))]
@@ -331,6 +348,10 @@ func genImplOps(r *rand.Rand, n int) []string {
 			after = genOpsValue(r)
 		}
 		isMac := isIn(alg, hmacAlgs) || isIn(alg, aesmacAlgs)
+		if withMalformed && i%25 == 0 {
+			bad := []string{"t:7369676e", "[ t:78 ]", "[ int:9 t:3130 ]", "int:9", "b:09", "[ f:9 ]", "[ [ int:9 ] ]", "{ int:1 int:9 }", "[ i64:4294967296 ]", "T"}
+			out = append(out, "impl.malformed "+symKeyTok(alg, randBytes(r, keySizeOf(alg)), "int:4", bad[r.Intn(len(bad))]))
+		}
 		if isMac {
 			out = append(out, fmt.Sprintf("impl.mac %s %s | %s", hx(randBytes(r, 1+r.Intn(40))), k, after))
 		} else {
